@@ -9,7 +9,7 @@ use serde_json::{json, Value};
 use std::io::Read;
 use std::os::unix::fs::MetadataExt;
 use std::os::unix::process::ExitStatusExt;
-use std::path::{Path, PathBuf};
+use std::path::PathBuf;
 use std::process::{Command, Stdio};
 use std::time::{Duration, Instant, SystemTime};
 
@@ -332,7 +332,7 @@ impl Family for Driver {
         let crashed = !res.timed_out && !matches!(exit.as_i64(), Some(0) | Some(1) | Some(2));
         let panicked = stderr.contains("panicked at") || stderr.contains("overflowed its stack");
         let ev = json!({
-            "ev": "run", "cls": cls, "errfile": errfile, "dry": dry, "allow": allow, "outdir": outdir, "gens": gens,
+            "ev": "run", "cls": cls, "errfile": errfile, "k": case["k"], "dry": dry, "allow": allow, "outdir": outdir, "gens": gens,
             "obs": {
                 "exit": exit, "started": started, "captured": captured.iter().map(|c| c.0).collect::<Vec<_>>(), "same_request": same_request,
                 "named": named, "errors": diag_errors, "warnings": diag_warnings, "file_errors": file_errors, "foreign_lines": foreign_lines,
